@@ -51,6 +51,16 @@ def gen_cases():
         lines.append("end")
         cases.append(lines)
         i += 1
+    # a timer registered while its deadline is unrepresentable (nothing armed) and given a real deadline later
+    # (set_deadline + update): armed from then on — unless it was disabled in between, then nothing is armed
+    for timeout, timers in itertools.product(["120", "none"],
+                                             [["late 30"], ["late 30 disabled"], ["late 25", "60"], ["late 25 disabled", "60"]]):
+        lines = ["case t%d" % i, "timeout " + timeout, "dispatches 2"] + ["timer " + t for t in timers]
+        if timeout == "none":
+            lines.append("waker 150")
+        lines.append("end")
+        cases.append(lines)
+        i += 1
     return cases
 
 
